@@ -9,7 +9,10 @@ cut / a DISCONNECT delivered / a side aborting at EVERY packet boundary of each 
 Drivers/C09.lean; packets on the wire, API results, callback logs, channel tables and pending calls are compared.
 Oracle: the property's predicate on the real code (nothing pending at quiescence, callback order, one final
 notification, empty table, SFTP requests all fail), including end-to-end stream / SFTP / connect scenarios; judged
-also at every quiescent point BEFORE any transport loss: a channel whose peer's CLOSE has arrived is cleaned up.
+also at every quiescent point BEFORE any transport loss: a channel whose peer's CLOSE has arrived is cleaned up, a
+writer waiting in drain() is released by the peer's CLOSE, a channel both applications have closed is cleaned up on
+both ends; plus fixed end-to-end histories (_c09_findings.py) for the situations the script alphabet does not reach
+(undecodable text met by resume_reading, a callback raising StopIteration, x11-req / auth-agent-req + CLOSE).
 """
 
 from __future__ import annotations
@@ -26,6 +29,7 @@ from vlib import Ctx, CorrResult, OracleResult, Failure, Disagreement, Hist
 from props import _c09_gen as G
 from props import _c09_real as R
 from props import _c09_waiters as W
+from props import _c09_findings as F
 
 PROPERTY = 'C09'
 MANIFEST = {
@@ -41,14 +45,26 @@ MANIFEST = {
             'whose queues have drained is fully cleaned up (waiters resolved, connection_lost delivered, unregistered) '
             'from ANY phase incl. start-up with an unanswered request (closed_channel_cleaned_any_phase; the '
             'side condition "no undelivered data" is necessary, witness startup_data_then_close_hang_witness = '
-            'defect D2 of the code); `eof_received` is delivered at most once, also when the peer\'s CLOSE '
+            'defect D2 of the code); for every window >= 1 a close() can not stay pending for ever when both '
+            'applications close with more unsent data than the peer\'s window: by the window ledger of each direction '
+            '(sender window + DATA in flight + undelivered data + credit in flight = receiver window, an invariant of '
+            'every run because dropped / discarded data is credited) quiescence with a close called and no undelivered '
+            'data means closed/closed (close_handshake_no_mutual_deadlock; before the repair false: '
+            'mutual_close_deadlock_witness); write flow control is part of the model (_send_paused, water marks, '
+            'pause_writing / resume_writing, tasks in drain()): an endpoint that has processed its peer\'s CLOSE is '
+            'never left paused for writing nor with a task blocked in drain(), in every reachable state '
+            '(writer_released_once_peer_closed, peer_close_releases_writer; before the repair false: '
+            'drain_behind_peer_close_hang_witness); that the code has these repairs is re-read from channel.py on '
+            'every run (Gen/C09.lean: peer_close_resumes_writer_in_code, dropped_data_credited_in_code); '
+            '`eof_received` is delivered at most once, also when the peer\'s CLOSE '
             'overtakes its pending EOF (eof_at_most_once); stream and SFTP waiters are resolved by connection_lost — '
             'for the SFTP request table exactly when recv_packets catches every exception class, a fact regenerated '
             'from the source on each run (Gen/C09.lean; the earlier defect is fixed, F37). The model is tied to the '
             'code by script-level differential runs with the transport cut at every packet boundary.',
-    'note': 'payload bytes, window arithmetic beyond one-byte writes, X11/agent/port-forward listeners and real '
-            'time are outside the model; a peer that keeps sending after its own DISCONNECT inside one TCP segment '
-            'is outside the environment of the theorems',
+    'note': 'payload bytes and text decoding, window arithmetic beyond one-byte writes, the channel requests a server '
+            'finishes in a task (x11-req, auth-agent-req), X11/agent/port-forward listeners and real time are outside '
+            'the model (the oracle reaches them through fixed end-to-end histories); a peer that keeps sending after '
+            'its own DISCONNECT inside one TCP segment is outside the environment of the theorems',
     'technique': 'Lean 4 invariant proofs over all event sequences (labelled transition system with explicit ready '
                  'queue) + potential-function termination bound + script-level differential correspondence with '
                  'exhaustive cut points + direct oracle on the real code',
@@ -62,6 +78,9 @@ TRUSTED = [
     'application callbacks do not re-enter the channel synchronously (other than returning a value) and do not '
     'pause reading from inside data_received',
     'Drivers/C09.lean is a thin line-protocol wrapper over the model functions the theorems are about',
+    'the `drain` op of the scripts waits in the real SSHStreamSession.drain() of a stream session object that is fed '
+    'with the channel\'s pause_writing / resume_writing / connection_lost callbacks only (its task is started eagerly, '
+    'as the model counts it)',
 ]
 ASSUMPTIONS = [
     'receive window >= 1 and peer maximum packet size >= 1 (see C08 for the zero-packet-size defect)',
@@ -69,9 +88,13 @@ ASSUMPTIONS = [
     '(a peer does not keep sending after its own DISCONNECT)',
     'futures owned by the application (session_requested / server_requested awaitables) are eventually resolved '
     'by the application',
-    'close_handshake_quiescent_closed / closed_channel_cleaned_any_phase: no reader stays paused holding data and no '
-    'sender stays blocked on the window (flow-control liveness is C08); for a channel still starting up that side '
-    'condition fails in the real code when data precedes the CLOSE (defect D2, reported by the oracle)',
+    'close_handshake_quiescent_closed / closed_channel_cleaned_any_phase: no reader stays paused holding data, and a '
+    'CLOSE has been SENT by one side (explicit hypothesis; close_handshake_no_mutual_deadlock replaces it by "close() '
+    'has been CALLED by one side" for established channels with window >= 1 and no protocol error); for a channel '
+    'still starting up the side condition fails in the real code when data precedes the CLOSE (defect D2, reported '
+    'by the oracle)',
+    'writer_released_once_peer_closed / close_handshake_no_mutual_deadlock: established channel (HS.init), sessions '
+    'attached; write-buffer limits satisfy 0 <= low <= high (what set_write_buffer_limits accepts)',
     'closed_channel_cleaned_any_phase: the create() coroutine does not advance during the run (its suspension '
     'point is part of the arbitrary initial state; its reaction to a failed request, close(), is an application event)',
 ]
@@ -79,12 +102,88 @@ ASSUMPTIONS = [
 GEN_PATH = 'AsyncsshModel/Gen/C09.lean'
 
 
+def _method(tree: Any, cls: str, name: str) -> Any:
+    import ast
+    for node in tree.body:
+        if isinstance(node, ast.ClassDef) and node.name == cls:
+            for sub in node.body:
+                if isinstance(sub, (ast.FunctionDef, ast.AsyncFunctionDef)) and sub.name == name:
+                    return sub
+    raise ValueError(f'{cls}.{name} not found')
+
+
+def _is_self_call(node: Any, meth: str) -> bool:
+    import ast
+    return (isinstance(node, ast.Expr) and isinstance(node.value, ast.Call) and
+            isinstance(node.value.func, ast.Attribute) and node.value.func.attr == meth and
+            isinstance(node.value.func.value, ast.Name) and node.value.func.value.id == 'self')
+
+
+def _adjust_arg(node: Any) -> Optional[str]:
+    """`self.send_packet(MSG_CHANNEL_WINDOW_ADJUST, UInt32(<x>))` -> source of <x>, else None"""
+    import ast
+    if not _is_self_call(node, 'send_packet'):
+        return None
+    a = node.value.args
+    if len(a) == 2 and isinstance(a[0], ast.Name) and a[0].id == 'MSG_CHANNEL_WINDOW_ADJUST' and \
+            isinstance(a[1], ast.Call) and isinstance(a[1].func, ast.Name) and a[1].func.id == 'UInt32' and \
+            len(a[1].args) == 1:
+        return ast.unparse(a[1].args[0])
+    return None
+
+
+def _flow_facts(chan_src: str) -> Dict[str, bool]:
+    """What channel.py does for a writer / a peer whose data will not be looked at any more (read from the AST):
+    does `_process_close` look at the water marks again after `_close_send()`; do `_accept_data` (data dropped after
+    the local close) and `_discard_recv` (undelivered data thrown away) give the window back."""
+    import ast
+    tree = ast.parse(chan_src)
+    facts: Dict[str, bool] = {}
+    # _process_close: ... self._close_send() ; [self._pause_resume_writing()] ; ... self._recv_state = 'close_pending'
+    body = _method(tree, 'SSHChannel', '_process_close').body
+    idx_close = [i for i, n in enumerate(body) if _is_self_call(n, '_close_send')]
+    idx_state = [i for i, n in enumerate(body) if isinstance(n, ast.Assign) and ast.unparse(n.targets[0]) == 'self._recv_state'
+                 and ast.unparse(n.value) == "'close_pending'"]
+    if len(idx_close) != 1 or len(idx_state) != 1 or idx_close[0] > idx_state[0]:
+        raise ValueError('_process_close: expected `self._close_send()` before `self._recv_state = \'close_pending\'`')
+    idx_pr = [i for i, n in enumerate(body) if _is_self_call(n, '_pause_resume_writing')]
+    if idx_pr and not (len(idx_pr) == 1 and idx_close[0] < idx_pr[0] < idx_state[0]):
+        raise ValueError('_process_close: `_pause_resume_writing()` is not between `_close_send()` and the state change')
+    facts['closeResumesWriting'] = bool(idx_pr)
+    # _accept_data: `if self._send_state in {'close_pending', 'closed'}: [adjust len(data)]; return`
+    drop = [n for n in _method(tree, 'SSHChannel', '_accept_data').body
+            if isinstance(n, ast.If) and 'self._send_state in' in ast.unparse(n.test)]
+    if len(drop) != 1 or not isinstance(drop[0].body[-1], ast.Return):
+        raise ValueError('_accept_data: the branch dropping data after the local close was not recognised')
+    stmts = drop[0].body[:-1]
+    args = [_adjust_arg(n) for n in stmts]
+    if stmts and args != ['len(data)']:
+        raise ValueError('_accept_data: the drop branch does something the model does not know: ' + ast.unparse(drop[0]))
+    facts['dropCreditsWindow'] = bool(stmts)
+    # _discard_recv: [if self._recv_buf_len: adjust self._recv_buf_len] before `self._recv_buf = []`
+    body = _method(tree, 'SSHChannel', '_discard_recv').body
+    body = [n for n in body if not (isinstance(n, ast.Expr) and isinstance(n.value, ast.Constant))]
+    idx_reset = [i for i, n in enumerate(body) if isinstance(n, ast.Assign) and ast.unparse(n.targets[0]) == 'self._recv_buf_len']
+    if len(idx_reset) != 1:
+        raise ValueError('_discard_recv: `self._recv_buf_len = 0` not found')
+    credit = [i for i, n in enumerate(body) if isinstance(n, ast.If) and ast.unparse(n.test) == 'self._recv_buf_len']
+    if credit:
+        n = body[credit[0]]
+        if len(credit) != 1 or credit[0] > idx_reset[0] or n.orelse or [_adjust_arg(x) for x in n.body] != ['self._recv_buf_len']:
+            raise ValueError('_discard_recv: the credit for discarded data is not what the model knows: ' + ast.unparse(n))
+    facts['discardCreditsWindow'] = bool(credit)
+    return facts
+
+
 def translate(ctx: Ctx) -> Dict[str, Any]:
     """T1: the `except` clauses of SFTPHandler.recv_packets, read from the current source tree, become
-    Gen/C09.lean; the SFTP theorems are stated relative to `recvPacketsCatchesAll`."""
+    Gen/C09.lean; the SFTP theorems are stated relative to `recvPacketsCatchesAll`.  The flow-control facts of
+    channel.py the life-cycle model relies on (`_flow_facts`) go to the same file; Props/C09.lean proves that they
+    are what the model assumes."""
     import ast
     import os
     import vlib
+    flow = _flow_facts(open(os.path.join(vlib.REPO, 'asyncssh', 'channel.py')).read())
     src = open(os.path.join(vlib.REPO, 'asyncssh', 'sftp.py')).read()
     tree = ast.parse(src)
     fn = None
@@ -124,20 +223,32 @@ def translate(ctx: Ctx) -> Dict[str, Any]:
     for required in ('OSError', 'Error', 'EOFError'):
         if required not in names and not catches_all:
             raise ValueError(f'recv_packets no longer catches {required}: the model needs to be revisited')
-    body = ('/- GENERATED by harness/props/C09.py translate() from asyncssh/sftp.py — do not edit.\n'
-            '   The `except` clauses of `SFTPHandler.recv_packets`: which exception classes end the task through `_cleanup`. -/\n'
+    body = ('/- GENERATED by harness/props/C09.py translate() from asyncssh/sftp.py and asyncssh/channel.py — do not edit.\n'
+            '   The `except` clauses of `SFTPHandler.recv_packets` (which exception classes end the task through `_cleanup`)\n'
+            '   and what `_process_close`, `_accept_data`, `_discard_recv` do for a writer / a peer whose data is given up. -/\n'
             'namespace AsyncsshModel.Gen.C09\n\n'
             '/-- exception classes named in the `except` clauses of `SFTPHandler.recv_packets`, in order -/\n'
             'def recvPacketsHandlers : List String := [' + ', '.join('"%s"' % n for n in names) + ']\n\n'
             '/-- is there a clause catching every `Exception` (bare `except`, `Exception` or `BaseException`)? -/\n'
             'def recvPacketsCatchesAll : Bool := ' + ('true' if catches_all else 'false') + '\n\n'
+            '/-- asyncssh/channel.py `_process_close`: `self._pause_resume_writing()` is called after `self._close_send()`\n'
+            '    (a session told to pause writing is resumed when the peer\'s CLOSE discards the unsent data) -/\n'
+            'def closeResumesWriting : Bool := ' + ('true' if flow['closeResumesWriting'] else 'false') + '\n\n'
+            '/-- `_accept_data`: data dropped after the local close is credited with WINDOW_ADJUST(len(data)) -/\n'
+            'def dropCreditsWindow : Bool := ' + ('true' if flow['dropCreditsWindow'] else 'false') + '\n\n'
+            '/-- `_discard_recv`: undelivered data that is thrown away is credited with WINDOW_ADJUST(_recv_buf_len) -/\n'
+            'def discardCreditsWindow : Bool := ' + ('true' if flow['discardCreditsWindow'] else 'false') + '\n\n'
             'end AsyncsshModel.Gen.C09\n')
     changed = vlib.write_if_changed(os.path.join(vlib.LEAN_DIR, GEN_PATH), body)
-    return {'recv_packets_handlers': names, 'catches_all': catches_all, 'gen_changed': changed,
+    return {'recv_packets_handlers': names, 'catches_all': catches_all, 'gen_changed': changed, 'flow': flow,
             'pins': {'channel._cleanup': vlib.ast_pin('asyncssh/channel.py', 'SSHChannel._cleanup'),
                      'connection._cleanup': vlib.ast_pin('asyncssh/connection.py', 'SSHConnection._cleanup'),
                      'connection._force_close': vlib.ast_pin('asyncssh/connection.py', 'SSHConnection._force_close'),
-                     'sftp.recv_packets': vlib.ast_pin('asyncssh/sftp.py', 'SFTPHandler.recv_packets')}}
+                     'sftp.recv_packets': vlib.ast_pin('asyncssh/sftp.py', 'SFTPHandler.recv_packets'),
+                     'channel._process_close': vlib.ast_pin('asyncssh/channel.py', 'SSHChannel._process_close'),
+                     'channel._accept_data': vlib.ast_pin('asyncssh/channel.py', 'SSHChannel._accept_data'),
+                     'channel._discard_recv': vlib.ast_pin('asyncssh/channel.py', 'SSHChannel._discard_recv'),
+                     'channel.resume_reading': vlib.ast_pin('asyncssh/channel.py', 'SSHChannel.resume_reading')}}
 
 
 SETTLE_BOUND = 12          # loop iterations allowed for everything to complete once nothing more can arrive
@@ -690,6 +801,21 @@ def oracle(ctx: Ctx) -> OracleResult:
     hist = Hist()
     rng = ctx.subrng('oracle')
 
+    # (0) fixed end-to-end histories (public API / wire), one per way something was once found to hang or to outlive
+    #     its owner; their failures come first in the report
+    first: List[Failure] = []
+    later: List[Failure] = []
+    seen_scen: set = set()
+    for info in pair.run(F.run_all(), timeout=900):
+        res.evaluations += 1
+        hist.hit(f'history:{info["scenario"]}:{info.get("variant")}')
+        for sig, what in F.judge(info):
+            f = Failure(sig, what, {'kind': 'history', 'scenario': info['scenario'], 'args': info.get('args', [])})
+            (later if info['scenario'] in seen_scen else first).append(f)      # one per history first
+            seen_scen.add(info['scenario'])
+            print(f'  C09 history {info["scenario"]}/{info.get("variant")} fails [{sig}]')
+    res.failures += first + later
+
     # (a) suspects from the correspondence first, then fresh scripts with cuts at every packet boundary --------
     items: List[Tuple[List[str], str]] = []
     for s in ctx.suspects:
@@ -774,8 +900,12 @@ def oracle(ctx: Ctx) -> OracleResult:
                 'told its session connection_lost and left the channel table (whatever phase it was in; only an '
                 'application-paused reader holding data is excused); after the final loss of both transports nothing awaited is '
                 'pending, every session/owner log is connection_made·x*·connection_lost, no channel registered on a '
-                'closed connection, no task left, bounded loop iterations; plus end-to-end SFTP / stream / connect '
-                'scenarios under 7 ways of losing the connection')
+                'closed connection, no task left, bounded loop iterations; a writer blocked in drain() is released as '
+                'soon as the peer\'s CLOSE has arrived; a channel BOTH applications have closed is cleaned up on both '
+                'ends once nothing is in flight (whatever was still unsent / undelivered); plus end-to-end SFTP / stream '
+                '/ connect scenarios under 7 ways of losing the connection and fixed histories (drain behind a peer '
+                'CLOSE, undecodable text found by resume_reading, mutual close on full windows, a callback raising '
+                'StopIteration, x11-req / auth-agent-req followed at once by CLOSE)')
     return res
 
 
@@ -794,6 +924,9 @@ def replay(ctx: Ctx, rep: Dict[str, Any]) -> List[Failure]:
         info = pair.run(_stream_scenario(r['loss'], r.get('pause_writer', False)))
         bad = [k for k, v in info['results'].items() if v == 'pending']
         return [Failure('stream-waiter-never-completes', str(bad), r)] if bad else []
+    if kind == 'history':
+        info = pair.run(F.run_one(r['scenario'], tuple(r.get('args', []))), timeout=120)
+        return [Failure(sig, what, r) for sig, what in F.judge(info)]
     if kind == 'handshake':
         info = pair.run(_handshake_case(r['cut_after']))
         return [Failure('connect-never-completes', str(info), r)] if info['connect'] == 'pending' else []
